@@ -543,6 +543,27 @@ def canonical_check(sp, c, R):
     return ok, (k if xok else "%d (and the array passed as x does not hold the iterate alg.x of the stepped run)" % k)
 
 
+def interleaved_check(sp, c, R):
+    """two LIVE solver objects on systems of the same shape and dtype, constructed one after the other and stepped alternately:
+    the first must walk through exactly the iterates of its solo run (every object owns its state; nothing is shared through the
+    class or the module)"""
+    A, P, b, x0, tol = R["A"], R["P"], R["b"], R["x0"], R["tol"]
+    xa, xb = x0.copy(), (x0 * 0.5 + 1).astype(x0.dtype)
+    Aop = (lambda v: A @ v)
+    Pop = None if P is None else (lambda v: P @ v)
+    alg_a = sp.alg.ConjugateGradient(Aop, b.copy(), xa, P=Pop, max_iter=c["max_iter"], tol=tol)
+    alg_b = sp.alg.ConjugateGradient(Aop, (b[::-1] * 2).astype(b.dtype).copy(), xb, P=Pop, max_iter=c["max_iter"], tol=tol)
+    for k in range(min(R["canon"], 8)):
+        alg_a.update()
+        if not alg_b.done():
+            alg_b.update()
+        ref = R["obs"][k + 1]["x"]
+        got = np.asarray(alg_a.x).reshape(ref.shape)
+        if not np.allclose(got, ref, rtol=1e-9, atol=1e-300, equal_nan=True):
+            return False, k + 1
+    return True, None
+
+
 def case_record(c, R):
     def arr(a):
         if a is None:
@@ -597,6 +618,12 @@ def run(ctx):
         exprs_step.append({"expr": step})
         exprs_free.append({"expr": free})
         probs = oracle(c, R)
+        if not (c.get("layout2d") or c.get("alias_xb")) and R["canon"] >= 2:
+            oki, ki = interleaved_check(sp, c, R)
+            ctx.count("interleaved-solvers", nontrivial=False)
+            if not oki:
+                probs.append(("interleaved", "with a second live solver of the same shape and dtype stepped alternately, the iterate after "
+                              "update %d differs from the solo run (it is no longer the Krylov-optimal iterate)" % ki, {}))
         okc, kc = canonical_check(sp, c, R)
         if not okc:
             probs.append(("canonical-loop", "`while not done: update` performed %s updates, first done() at %d (max_iter %d)"
